@@ -8,6 +8,7 @@ package xlatesample
 import (
 	"encoding/binary"
 	"math"
+	"sort"
 )
 
 const (
@@ -199,3 +200,27 @@ func Make(n, c int8) ([]int16, int) {
 	t := make([]int16, c)
 	return s, len(t)
 }
+func Search(l []int32, k int32) (int, int) {
+	i := sort.Search(len(l), func(x int) bool { return l[x] >= k })
+	j := sort.Search(len(l)+1, func(x int) bool { return l[x] >= k }) // the predicate can panic at x = len(l)
+	return i, j
+}
+func Widen(b uint32, c uint64) (uint64, uint32, uint64, float32) {
+	f := math.Float32frombits(b)
+	var z float32
+	z = 0
+	return math.Float64bits(float64(f)), math.Float32bits(f), math.Float64bits(math.Float64frombits(c)), z
+}
+func SortDesc(l []int32) ([]int32, int32) {
+	var v []int32
+	for _, x := range l {
+		v = append(v, x)
+	}
+	sort.Slice(v, func(i, j int) bool { return v[i] > v[j] })
+	s := int32(0)
+	for k := len(v) - 1; k >= 0; k-- {
+		s = s*3 + v[k]
+	}
+	return v, s
+}
+func StrOrder(a, b string) (bool, bool, bool, bool) { return a < b, a <= b, a > b, a >= b }
